@@ -114,7 +114,10 @@ def parse_model(line):
     plan = None
     if p < len(v) and get() == 1:
         plan = dict(inp=tok(), in_fmt=tok(), out=tok(), out_fmt=tok())
-    return dict(final=["run", "exit", "crash"][fin], code=code, execs=execs, vals=vals, plan=plan)
+    orderings = None
+    if p < len(v):
+        no = get(); orderings = [get() for _ in range(no)]
+    return dict(final=["run", "exit", "crash"][fin], code=code, execs=execs, vals=vals, plan=plan, orderings=orderings)
 
 # ------------------------------------------------------------------------------------------------ input files
 def make_generated(rng, wd, name, nlayers):
@@ -126,7 +129,7 @@ def make_generated(rng, wd, name, nlayers):
     g, c = models.write_model(m, d, fmt="tri", stem=name)
     r0 = radii[0]
     pos, mom = models.dipoles_in_ball(rng, rng.randint(2, 4), (0, 0, 0), r0, 0.7)
-    f = dict(geom=g, cond=c, domain="D0", iface="I0", nested=True, ndip=len(pos))
+    f = dict(geom=g, cond=c, domain="D0", iface="I0", nested=True, ndip=len(pos), radii=radii)
     f["dip"] = os.path.join(d, "dipoles.dip"); models.write_dipoles(f["dip"], pos, mom)
     ne = rng.randint(3, 6)
     f["elec"] = os.path.join(d, "electrodes.patches"); models.write_points(f["elec"], models.sensors_on_sphere(rng, ne, (0, 0, 0), 1.0), ["E%03d" % k for k in range(ne)])
@@ -142,6 +145,13 @@ def make_generated(rng, wd, name, nlayers):
     f["srcmesh"] = os.path.join(d, "sources.tri"); models.write_tri(f["srcmesh"], models.transform(v, 0.6 * r0), t)
     f["dir"] = d; f["name"] = name
     return f
+
+def read_tri(path):
+    """vertices and triangles of a .tri file"""
+    L = [l.split() for l in open(path) if l.strip()]
+    nv = int(L[0][1]); vs = [tuple(float(x) for x in l[:3]) for l in L[1:1 + nv]]
+    ts = [tuple(int(x) for x in l[:3]) for l in L[2 + nv:]]
+    return vs, ts
 
 def make_head1(rng, wd):
     src0 = os.path.join(REPO, "data", "Head1")
@@ -250,7 +260,7 @@ def build_option_case(R, tool, bname, alias, files, outdir, suffix, with_optiona
         elif cm_mode == "alphabeta+file": extra = ["0.002", "90.5", cache]; mode, x, y, hf = "alphabeta", "0.002", "90.5", hcache
         elif cm_mode == "file": extra = [cache]; hf = hcache
         args += extra
-        h = ["CM", hargs["geom"], hargs["cond"], hargs["elec"], hargs["domain"], hargs["out"], mode, x, y, hf]
+        h = ["CM", hargs["geom"], hargs["cond"], hargs["elec"], hargs["domain"], hargs["out"], mode, x, y, hf, "1" if old else "0"]
     else:
         o = "1" if old else "0"
         op = doc["op"]
@@ -269,11 +279,13 @@ def build_option_case(R, tool, bname, alias, files, outdir, suffix, with_optiona
         elif op == "DS2IPM": h = [op, hargs["geom"], hargs["cond"], hargs["dip"], hargs["points"], hargs["out"], hargs["domain"], o]
         else:
             h = [op] + [hargs[r.lstrip("?=").split(":")[0]] for r in doc["roles"]]
-    pre = ["-old-ordering"] if old else []
+    pre = ["-old-ordering"] if old and old != "after" else []
+    post = ["-old-ordering"] if old == "after" else []
     npar = len(args) - 1
-    return R.add(tool=tool["name"], args=pre + args, off=len(pre), expect="ok", block=bidx, bname=bname, alias=alias, npar=npar,
+    return R.add(tool=tool["name"], args=pre + args + post, off=len(pre), expect="ok", block=bidx, bname=bname, alias=alias, npar=npar, old=bool(old),
+                 loads_geometry=("geom" in rolepos),
                  rolepos=rolepos, outs=outs, hcase=" ".join(h), cls="option", model=files["name"], suffix=suffix,
-                 desc="%s %s on %s%s%s" % (tool["name"], alias, files["name"], " +optional" if with_optional else "", (" " + cm_mode) if cm_mode else ""))
+                 desc="%s %s on %s%s%s%s" % (tool["name"], alias, files["name"], " +optional" if with_optional else "", (" " + cm_mode) if cm_mode else "", " -old-ordering" if old else ""))
 
 def gen_corpus(R, fsets):
     cp = os.path.join(core.VERIF, "corpus", "C20.txt")
@@ -351,12 +363,17 @@ def gen_cases(R, rng, quick, wd, fsets):
                 for mode in ["gamma", "alphabeta", "file", "gamma+file", "alphabeta+file"]:
                     fs = rng.choice(fsets)
                     build_option_case(R, tool, bname, rng.choice(b["aliases"]), fs, fs["dir"], sfx(), False, cm_mode=mode, tag="_" + mode.replace("+", "_"))
-    # -old-ordering (typed boolean option of om_assemble), before and after the option
-    if ta:
-        fs = fsets[0]
-        for bname in ("-HeadMat", "-DipSourceMat", "-Head2EEGMat"):
-            if block_of(ta, bname)[1] is not None:
-                build_option_case(R, ta, bname, rng.choice(block_of(ta, bname)[1]["aliases"]), fs, fs["dir"], sfx(), False, old=True, tag="_old")
+    # -old-ordering (typed boolean flag of om_assemble): EVERY option that loads a geometry, with the flag before or after the
+    # option, on nested models with >= 2 interfaces; compared with the library call made with OLD_ORDERING=true
+    if ta and any(d["name"] == "-old-ordering" for d in ta["decls"]):
+        for b in ta["blocks"]:
+            bname = b["aliases"][0]
+            if bname not in DOC["om_assemble"] or "geom" not in [r.lstrip("?=") for r in DOC["om_assemble"][bname]["roles"]]: continue
+            for n, where in enumerate(["before", "after"]):
+                fs = fsets[n % len(fsets)] if not ("iface" in "".join(DOC["om_assemble"][bname]["roles"])) else fsets[0]
+                wo = any(r.startswith("?") for r in DOC["om_assemble"][bname]["roles"]) and rng.random() < 0.5 and bool(fs.get("iface") or "iface" not in "".join(DOC["om_assemble"][bname]["roles"]))
+                build_option_case(R, ta, bname, rng.choice(b["aliases"]), fs, fs["dir"], sfx(), wo, old=where, tag="_old_" + where,
+                                  cm_mode=rng.choice([None, "gamma", "alphabeta"]) if bname == "-CorticalMat" else None)
     # ---- positional tools
     for fs in fsets:
         if "om_minverser" in tools and "hm" in fs:
@@ -435,23 +452,40 @@ def gen_tools_cases(R, rng, quick, fsets):
                   conv=(kind, os.path.join(od, "ref_back_%s.txt" % kind)), plan=dict(inp=anon, in_fmt="binary", out=back, out_fmt="ascii"), cls="typed", model=fs["name"], suffix=".txt",
                   typed={"-i": anon, "-o": back, "-if": "binary"}, sym="om_matrix_convert -if binary -i anon.data(%s) -o back.txt" % kind, desc="om_matrix_convert anonymous binary %s -> txt with -if" % kind)
     if "om_check_geom" in tools:
+        # every subset of the optional options (-m, -d, -v), each with a good and a bad input so that the individual verdicts
+        # differ; the exit status must be that of the conjunction of the library checks
         for f2 in fsets:
-            combos = [[], ["-m", f2["srcmesh"]], ["-d", f2["dip"]], ["-v"], ["-m", f2["srcmesh"], "-d", f2["dip"], "-v"]]
-            outside = os.path.join(os.path.dirname(f2["geom"]), "Head1_outside.dip")
-            if f2["name"] == "head1" and os.path.exists(outside): combos.append(["-d", outside])
-            for extra in combos:
-                if quick and extra and rng.random() < 0.4: continue
-                args = ["-g", f2["geom"]] + extra
-                if rng.random() < 0.5: args = extra + ["-g", f2["geom"]]
-                m = extra[extra.index("-m") + 1] if "-m" in extra else "-"; d = extra[extra.index("-d") + 1] if "-d" in extra else "-"
-                R.add(tool="om_check_geom", args=args, off=0, expect="status", hcase="CHECK %s %s %s" % (f2["geom"], m, d), cls="typed", model=f2["name"], suffix="",
-                      typed={"-g": f2["geom"], "-m": "" if m == "-" else m, "-d": "" if d == "-" else d},
-                      sym="om_check_geom -g geom %s" % " ".join(x if x.startswith("-") else os.path.basename(x) for x in extra), desc="om_check_geom on %s %s" % (f2["name"], " ".join(e for e in extra if e.startswith("-"))))
+            gd = os.path.dirname(f2["srcmesh"]) if f2["name"] != "head1" else f2["dir"]
+            badmesh = os.path.join(f2["dir"], "shifted_sources.tri")
+            if not os.path.exists(badmesh):
+                vs, ts = read_tri(f2["srcmesh"])
+                ext = max(abs(c) for v in vs for c in v) or 1.0
+                models.write_tri(badmesh, [(v[0] + 0.9 * ext, v[1], v[2]) for v in vs], ts)        # crosses the inner interface
+            baddip = os.path.join(os.path.dirname(f2["geom"]), "Head1_outside.dip") if f2["name"] == "head1" else os.path.join(f2["dir"], "outside.dip")
+            if f2["name"] != "head1":
+                with open(baddip, "w") as fh:
+                    fh.write(open(f2["dip"]).readline())
+                    fh.write("0 0 %r 0 0 1\n" % (0.5 * (f2["radii"][0] + f2["radii"][1])))             # one dipole in the second layer
+            meshes = [None, f2["srcmesh"], badmesh]; dips = [None, f2["dip"], baddip]
+            combos = [(m, d, v) for m in meshes for d in dips for v in (False, True)]
+            if quick: combos = [c for c in combos if (c[0] and c[1]) or rng.random() < 0.5]
+            for m, d, v in combos:
+                parts = [["-g", f2["geom"]]] + ([["-m", m]] if m else []) + ([["-d", d]] if d else []) + ([["-v"]] if v else [])
+                rng.shuffle(parts)
+                args = [x for pr in parts for x in pr]
+                tagm = {None: "", f2["srcmesh"]: " -m good", badmesh: " -m crossing"}[m]; tagd = {None: "", f2["dip"]: " -d inside", baddip: " -d outside"}[d]
+                R.add(tool="om_check_geom", args=args, off=0, expect="status", hcase="CHECK %s %s %s" % (f2["geom"], m or "-", d or "-"), cls="typed", model=f2["name"], suffix="",
+                      typed={"-g": f2["geom"], "-m": m or "", "-d": d or ""},
+                      sym="om_check_geom -g geom%s%s%s" % (tagm, tagd, " -v" if v else ""), desc="om_check_geom on %s%s%s%s" % (f2["name"], tagm, tagd, " -v" if v else ""))
     if "om_mesh_convert" in tools:
         mat = os.path.join(od, "transform.txt")
         with open(mat, "w") as fh: fh.write("0 -1 0 0.5\n1 0 0 -0.25\n0 0 1 2\n0 0 0 1\n")
         variants = [([], ".tri"), (["-tx", "0.5", "-ty", "-1.25", "-tz", "2"], ".off"), (["-sx", "2", "-sy", "0.5", "-sz", "-1", "-invert"], ".bnd"),
                     (["-mat", mat], ".tri"), (["-invert"], ".mesh"), (["-tz", "-3", "-sx", "1.5", "-mat", mat, "-invert"], ".off")]
+        opts = [["-tx", "0.5"], ["-ty", "-1.25"], ["-tz", "2"], ["-sx", "2"], ["-sy", "0.5"], ["-sz", "-1"], ["-mat", mat], ["-invert"]]
+        for _ in range(6 if quick else 40):
+            sub = [o for o in opts if rng.random() < 0.5]; rng.shuffle(sub)
+            variants.append(([x for o in sub for x in o], rng.choice([".tri", ".off", ".bnd", ".mesh"])))
         for n, (extra, osfx) in enumerate(variants):
             out = os.path.join(od, "mesh_%d%s" % (n, osfx)); ref = os.path.join(od, "ref_mesh_%d%s" % (n, osfx))
             g = lambda name, d: extra[extra.index(name) + 1] if name in extra else d
@@ -702,6 +736,9 @@ def evaluate(ck, R, c, pred, rc, txt, before, after, hres):
             P("missing input file ignored", "the %s file (parameter %d) does not exist but the tool succeeded: it is read from another position" % (r, p))
         if any(os.path.exists(q) for q in c["probe_outs"]):
             P("output written although an input is missing", "outputs: %s" % [os.path.basename(q) for q in c["probe_outs"] if os.path.exists(q)])
+    if c.get("loads_geometry") and pred is not None and not pred.get("absent") and pred["final"] == "run" and pred.get("orderings") is not None:
+        if not pred["orderings"] or any(o != (1 if c.get("old") else 0) for o in pred["orderings"]):
+            P("-old-ordering does not reach the geometry", "OLD_ORDERING handed to the Geometry constructors of the block according to the generated table: %s, flag on the command line: %s" % (pred["orderings"], bool(c.get("old"))))
     if c.get("plan") and pred is not None and not pred.get("absent"):
         if pred.get("plan") != c["plan"]:
             P("conversion plan differs from the documentation", "model (generated from the source): %s, documented: %s" % (pred.get("plan"), c["plan"]))
@@ -851,6 +888,11 @@ def main(replay=None):
     if offenders and not nfound and not nviol:
         ck.violation("table", "the generated table violates a condition of the theorems (tool, block, k): %s but no failing command line was found" % offenders[:6],
                      dict(kind="table", offenders=offenders), found_input=False)
+    cg = {}
+    for c in keep:
+        if c["tool"] == "om_check_geom" and c["expect"] == "status":
+            k = "%s -> %s" % (symbolic(c).replace(" -v", ""), runs[c["id"]][0]); cg[k] = cg.get(k, 0) + 1
+    oldc = sum(1 for c in keep if c.get("old") and c["expect"] == "ok" and runs.get(c["id"], (1,))[0] == 0)
     all_aliases = {(t["name"], a) for t in tools for b in t["blocks"] for a in b["aliases"]}
     ck.drop_proof_violation_if(any(v[3] for v in ck.violations))
     nrej = sum(v for k, v in dist.items() if k in ("reject", "probe", "witness"))
@@ -862,7 +904,7 @@ def main(replay=None):
                   samples=samples, op_distribution=dist, error_path_cases=nrej, error_path_fraction=round(nrej / max(1, len(keep)), 3),
                   aliases_in_table=len(all_aliases), aliases_exercised=len(aliases_seen & all_aliases),
                   traces_validated_against_impl=len(runs), harness_library_calls=len(hc), mat_comparisons=len(cmpc),
-                  reassociation_relative_difference=reassoc,
+                  reassociation_relative_difference=reassoc, check_geom_verdicts=cg, old_ordering_cases_compared=oldc,
                   library_call_fails_like_the_tool=sorted({"%s: %s" % (symbolic(c), c["consistent_failure"]) for c in keep if c.get("consistent_failure")}), table_offenders=offenders, translator_problems=problems)
     ck.cov["trusted_base"] += ["translator translators/t_cli.py (restricted C++ shapes; anything else is a reported problem)",
                                "hand-written Gallina model of commandline.h (coq/Geom/Cli.v) tied by running the executables built from the working tree on every generated command line",
